@@ -124,6 +124,89 @@ def purge_phase(ctx, orc, fails, dist):
     return mism
 
 
+def straddle_phase(ctx, orc, fails, dist):
+    """'at most once' when a decode request STRADDLES the purge that follows the credential's expiry: the request is received
+    (and its decode time sampled) in the last valid second X, the purge runs in second X+1 and discards the record of the
+    earlier decode, and only then does the request reach replay_insert().  The schedule is forced on the unchanged daemon code
+    by holding the worker at the entrance of replay_insert() (harness/replay_gate.c, -Wl,--wrap) while the clock is stepped
+    and the timer thread fast-forwarded.  No credential may be successfully decoded twice."""
+    import threading
+    gate_c = os.path.join(vlib.HARNESS, "replay_gate.c")
+    exe, err = rig.build_daemon(ctx, name="munged-vtg", san="address", extra_src=rig.vtimer_src() + [gate_c],
+                                wraps=rig.VTIMER_WRAPS + ["replay_insert"])
+    if exe is None:
+        ctx.violation("munged does not build with the replay gate: " + err[-300:], {"obligation": "build"}, found_input=False)
+        return
+    T = 1500000000
+    rng = ctx.rng
+    for max_ttl, nthreads in (((5, 2), (60, 4), (3600, 2)) if ctx.thorough else ((5, 2), (60, 4))):
+        cr = credcorr.CredRig(ctx, exe, orc, tag="c05s%d" % max_ttl, max_ttl=max_ttl, nthreads=nthreads, clock=T,
+                              extra=["--group-update-time=3600"])
+        if not cr.ok:
+            ctx.violation("daemon does not start (straddle phase)", {"obligation": "start"}, found_input=False)
+            return
+        gate = cr.d.clockfile + ".gate"
+        held = gate + ".held"
+
+        def set_gate(v):
+            with open(gate + ".tmp", "w") as f:
+                f.write(v)
+            os.replace(gate + ".tmp", gate)
+        set_gate("0")
+        try:
+            for ttl, late in ((1, 1), (max_ttl, 1), (max_ttl, 45), (max(1, max_ttl // 2), 2)):
+                r, _ = rig.encode(cr.d.sock, uid=11, gid=12, cipher=rng.choice([0, 4]), mac=5, zip_=0, ttl=ttl, data=b"straddle %d" % ttl)
+                if r is None or r["error_num"] != 0:
+                    continue
+                cred = r["data"]
+                X = T + min(ttl, max_ttl)              # last valid second
+                log = []
+                cr.set_clock(X)
+                d1, _ = rig.decode(cr.d.sock, cred, uid=5, gid=6)
+                log.append("decode received@X -> %s" % (d1 and d1["error_num"]))
+                d2, _ = rig.decode(cr.d.sock, cred, uid=5, gid=6)
+                log.append("decode received@X -> %s" % (d2 and d2["error_num"]))
+                # third request: received at X, held in front of replay_insert()
+                if os.path.exists(held):
+                    os.unlink(held)
+                set_gate("1")
+                res = {}
+                th = threading.Thread(target=lambda: res.update(r=rig.decode(cr.d.sock, cred, uid=5, gid=6)[0]))
+                th.start()
+                t0 = time.time()
+                while not os.path.exists(held) and time.time() - t0 < 10:
+                    time.sleep(0.01)
+                was_held = os.path.exists(held)
+                cr.set_clock(X + late)
+                cr.d.advance_timers(61000, settle=0.5)        # the purge runs at X+late: the record of the first decode is discarded
+                log.append("request received@X held before replay_insert: %s; clock -> X+%d; purge" % (was_held, late))
+                set_gate("0")
+                th.join(15)
+                d3 = res.get("r")
+                log.append("held request answered -> %s" % (d3 and d3["error_num"]))
+                d4, _ = rig.decode(cr.d.sock, cred, uid=5, gid=6)
+                log.append("decode received@X+%d -> %s" % (late, d4 and d4["error_num"]))
+                cr.set_clock(T)
+                ctx.count(("straddle", max_ttl, ttl, late))
+                dist["straddle"] = dist.get("straddle", 0) + 1
+                succ = sum(1 for d in (d1, d2, d3, d4) if d is not None and d["error_num"] == 0)
+                if not was_held:
+                    ctx.notes.append("straddle phase: the request was not held (gate not reached): %s" % log)
+                if succ > 1:
+                    fails.append({"why": "a credential (ttl %d, decoder --max-ttl %d, last valid second X) was successfully decoded %d times on one "
+                                         "daemon by first-attempt requests: %s" % (ttl, max_ttl, succ, "; ".join(log)),
+                                  "cred_hex": cred.hex(), "history": log, "max_ttl": max_ttl, "kind": "straddle"})
+                elif d1 is None or d1["error_num"] != 0 or d2 is None or d2["error_num"] != 17:
+                    fails.append({"why": "in-time decodes of a fresh credential answered %s then %s (expected 0 then 17): %s"
+                                         % (d1 and d1["error_num"], d2 and d2["error_num"], "; ".join(log)),
+                                  "cred_hex": cred.hex(), "history": log, "max_ttl": max_ttl, "kind": "straddle"})
+        finally:
+            set_gate("0")
+            rc, rep = cr.stop()
+        if rep.strip():
+            ctx.violation("sanitizer report from the daemon during the C05 straddle phase", {"report": rep[:3000]}, found_input=False)
+
+
 def live_phase(ctx):
     try:
         exe, orc = credcorr.build_all(ctx)
@@ -227,6 +310,7 @@ def live_phase(ctx):
             ctx.violation("model and daemon disagree in the C05 live phase on %d cases (first: %s)" % (len(mism), mism[0]["diff"]),
                           {"obligation": "correspondence CredModel ~ munged (C05 live)", "first": mism[0]}, found_input=False)
     pm = purge_phase(ctx, orc, fails, dist)
+    straddle_phase(ctx, orc, fails, dist)
     from props import c07 as _c07
     qf = []
     _c07.queued_across_expiry(ctx, orc, qf, dist)
